@@ -29,8 +29,26 @@ def _wells(op, key="wells", flag="wnp"):
     return _np_if(op[key], op.get(flag, False))
 
 
+def _as_ints(x):
+    if isinstance(x, list):
+        return [_as_ints(v) for v in x]
+    return int(x)
+
+
 def _vols(op, key="volumes", flag="vnp"):
-    return _np_if(dec(op[key]), op.get(flag, False))
+    """volumes argument; "vtype" selects the Python/numpy number type the user script happens to use
+    (all values were checked to be exactly representable in that type when the op was generated)."""
+    v = dec(op[key])
+    vt = op.get("vtype")
+    if vt == "int":
+        return _np_if(_as_ints(v), op.get(flag, False))
+    if vt in ("float32", "int64", "npscalar"):
+        import numpy as np
+
+        if vt == "npscalar":
+            return np.float64(v) if not isinstance(v, list) else np.array(v, dtype=np.float64)
+        return np.array(v, dtype=np.float32 if vt == "float32" else np.int64)
+    return _np_if(v, op.get(flag, False))
 
 
 def _tip(rt, t):
